@@ -237,3 +237,451 @@ Proof.
   intros Hk. unfold offk. unfold pystr in *. replace (S k) with (k + 1) by lia. rewrite firstn_add, concat_app, app_length. f_equal.
   rewrite (skipn_nth_cons lines k line Hk). cbn [firstn concat]. rewrite app_nil_r. reflexivity.
 Qed.
+
+(* ---------- sorted character-level diffs (global coordinates) ---------- *)
+Fixpoint gs (c : nat) (l : list dentry) : Prop :=
+  match l with
+  | [] => True
+  | DAddRange (KI k) (VStr _) :: r => c <= k /\ gs k r
+  | DRemoveRange (KI k) len :: r => c <= k /\ 0 < len /\ gs (k + len) r
+  | _ => False
+  end.
+
+Fixpoint gend (c : nat) (l : list dentry) : nat :=
+  match l with
+  | [] => c
+  | DAddRange (KI k) _ :: r => gend k r
+  | DRemoveRange (KI k) len :: r => gend (k + len) r
+  | _ :: r => gend c r
+  end.
+
+Lemma gs_weaken l : forall c c', gs c l -> c' <= c -> gs c' l.
+Proof.
+  destruct l as [|e l]; intros c c' H Hc; [exact I|].
+  destruct e as [k v|k|k v|[k|k] [vs|w]|[k|k] len|[k|k] dd]; cbn [gs] in *; try contradiction; intuition lia.
+Qed.
+
+Lemma gs_app l1 : forall l2 c, gs c (l1 ++ l2) <-> gs c l1 /\ gs (gend c l1) l2.
+Proof.
+  induction l1 as [|e l1 IH]; intros l2 c; [cbn; tauto|].
+  destruct e as [k v|k|k v|[k|k] [vs|w]|[k|k] len|[k|k] dd]; cbn [app gs gend]; try tauto.
+  - rewrite IH. tauto.
+  - rewrite IH. tauto.
+Qed.
+
+Lemma gend_ge l : forall c, gs c l -> c <= gend c l.
+Proof.
+  induction l as [|e l IH]; intros c H; [cbn; lia|].
+  destruct e as [k v|k|k v|[k|k] [vs|w]|[k|k] len|[k|k] dd]; cbn [gs gend] in *; try contradiction.
+  - destruct H as [H1 H2]. specialize (IH _ H2). lia.
+  - destruct H as (H1 & H2 & H3). specialize (IH _ H3). lia.
+Qed.
+
+(* sorting an already sorted diff by key changes nothing *)
+Lemma insert_by_key_end e : forall l, keys_le (knat e) l -> insert_by_key e l = l ++ [e].
+Proof.
+  induction l as [|x l IH]; intros H; [reflexivity|].
+  inversion H; subst. cbn [insert_by_key].
+  replace (Nat.ltb (knat e) (knat x)) with false by (symmetry; apply Nat.ltb_ge; lia).
+  rewrite IH by assumption. reflexivity.
+Qed.
+
+Lemma gs_keys l : forall c, gs c l -> Forall (fun e => c <= knat e) l.
+Proof.
+  induction l as [|e l IH]; intros c H; [constructor|].
+  destruct e as [k v|k|k v|[k|k] [vs|w]|[k|k] len|[k|k] dd]; cbn [gs] in H; try contradiction.
+  - destruct H as [H1 H2]. constructor; [cbn [knat dkey]; lia|].
+    eapply Forall_impl; [|apply IH; exact H2]. cbn. intros. lia.
+  - destruct H as (H1 & H2 & H3). constructor; [cbn [knat dkey]; lia|].
+    eapply Forall_impl; [|apply IH; exact H3]. cbn. intros. lia.
+Qed.
+
+Lemma sort_sorted_aux : forall l acc c,
+  gs c l -> keys_le c acc -> fold_left (fun acc e => insert_by_key e acc) l acc = acc ++ l.
+Proof.
+  induction l as [|e l IH]; intros acc c H Hacc; [cbn; rewrite app_nil_r; reflexivity|].
+  cbn [fold_left].
+  destruct e as [k v|k|k v|[k|k] [vs|w]|[k|k] len|[k|k] dd]; cbn [gs] in H; try contradiction.
+  - destruct H as [H1 H2]. rewrite insert_by_key_end by (eapply Forall_impl; [|exact Hacc]; cbn [knat dkey]; intros; lia).
+    rewrite (IH _ k H2).
+    + rewrite <- app_assoc. reflexivity.
+    + apply Forall_app. split; [eapply Forall_impl; [|exact Hacc]; cbn; intros; lia|]. repeat constructor.
+  - destruct H as (H1 & H2 & H3). rewrite insert_by_key_end by (eapply Forall_impl; [|exact Hacc]; cbn [knat dkey]; intros; lia).
+    rewrite (IH _ (k + len) H3).
+    + rewrite <- app_assoc. reflexivity.
+    + apply Forall_app. split; [eapply Forall_impl; [|exact Hacc]; cbn; intros; lia|]. repeat constructor. cbn [knat dkey]. lia.
+Qed.
+
+Lemma sort_sorted l c : gs c l -> sort_by_key l = l.
+Proof. intros H. unfold sort_by_key. rewrite (sort_sorted_aux l [] c H); [reflexivity | constructor]. Qed.
+
+(* ---------- _overlaps / _combine_ops on sorted character diffs preserve the meaning ---------- *)
+Section Combine.
+  Variable rec : json -> diff -> res json.
+  Variable obj : list json.
+
+  Lemma pst_two_addrange k w1 w2 tc acc :
+    pst rec obj tc [DAddRange (KI k) (VStr w1); DAddRange (KI k) (VStr w2)] acc
+    = pst rec obj tc [DAddRange (KI k) (VStr (w1 ++ w2))] acc.
+  Proof.
+    cbn [pst dkey vitems].
+    replace (Nat.max (Nat.max tc k) k) with (Nat.max tc k) by lia.
+    rewrite (slice_nil_ge obj (Nat.max tc k) k) by lia. rewrite app_nil_r, map_app, <- !app_assoc. reflexivity.
+  Qed.
+
+  Lemma pst_two_removerange k l1 l2 tc acc :
+    pst rec obj tc [DRemoveRange (KI k) l1; DRemoveRange (KI (k + l1)) l2] acc
+    = pst rec obj tc [DRemoveRange (KI k) (l1 + l2)] acc.
+  Proof.
+    cbn [pst dkey].
+    replace (Nat.max (Nat.max tc (k + l1)) (k + l1 + l2)) with (Nat.max tc (k + (l1 + l2))) by lia.
+    rewrite (slice_nil_ge obj (Nat.max tc (k + l1)) (k + l1)) by lia. rewrite app_nil_r. reflexivity.
+  Qed.
+
+  Lemma combine_go_ok : forall ch racc c0,
+    gs c0 (rev racc ++ ch) ->
+    exists comb, combine_go racc ch = Ok comb /\ gs c0 comb
+                 /\ forall tc acc, pst rec obj tc comb acc = pst rec obj tc (rev racc ++ ch) acc.
+  Proof.
+    induction ch as [|e ch IH]; intros racc c0 Hg.
+    - exists (rev racc). rewrite app_nil_r in *. repeat split; auto.
+    - destruct racc as [|last rest].
+      + cbn [combine_go]. apply (IH [e] c0). exact Hg.
+      + cbn [combine_go]. cbn [rev] in Hg. rewrite <- app_assoc in Hg. cbn [app] in Hg.
+        apply gs_app in Hg as [Hg1 Hg2]. set (c1 := gend c0 (rev rest)) in *.
+        assert (Hnocomb : overlaps last e = Ok false ->
+                  exists comb, (do o <- overlaps last e;
+                                if o then (do c <- combine_ops last e; combine_go (c :: rest) ch)
+                                else combine_go (e :: last :: rest) ch) = Ok comb /\ gs c0 comb
+                               /\ forall tc acc, pst rec obj tc comb acc = pst rec obj tc (rev (last :: rest) ++ e :: ch) acc).
+        { intros Ho. rewrite Ho. cbn [bind].
+          destruct (IH (e :: last :: rest) c0) as (comb & Hc & Hgc & Hp).
+          - cbn [rev]. rewrite <- !app_assoc. cbn [app]. apply gs_app. split; assumption.
+          - exists comb. split; [exact Hc|]. split; [exact Hgc|]. intros tc acc. rewrite Hp.
+            cbn [rev]. rewrite <- !app_assoc. reflexivity. }
+        destruct last as [k1 v1|k1|k1 v1|[k1|k1] [vs1|w1]|[k1|k1] l1|[k1|k1] dd1]; cbn [gs] in Hg2; try contradiction.
+        * (* last = addrange *)
+          destruct Hg2 as [Hk1 Hg2].
+          destruct e as [k2 v2|k2|k2 v2|[k2|k2] [vs2|w2]|[k2|k2] l2|[k2|k2] dd2]; cbn [gs] in Hg2; try contradiction.
+          -- destruct Hg2 as [Hk2 Hg3].
+             destruct (Nat.eq_dec k1 k2) as [E|E].
+             ++ subst k2.
+                assert (Ho : overlaps (DAddRange (KI k1) (VStr w1)) (DAddRange (KI k1) (VStr w2)) = Ok true)
+                  by (cbn [overlaps op_of opk_eqb knat dkey]; rewrite Nat.eqb_refl; reflexivity).
+                rewrite Ho. cbn [bind combine_ops is_addop vappend].
+                destruct (IH (DAddRange (KI k1) (VStr (w1 ++ w2)) :: rest) c0) as (comb & Hc & Hgc & Hp).
+                ** cbn [rev]. rewrite <- app_assoc. cbn [app]. apply gs_app. split; [exact Hg1|]. cbn [gs]. split; assumption.
+                ** exists comb. split; [exact Hc|]. split; [exact Hgc|]. intros tc acc. rewrite Hp.
+                   cbn [rev]. rewrite <- !app_assoc. cbn [app].
+                   rewrite !(pst_app rec obj (rev rest)).
+                   destruct (pst rec obj tc (rev rest) acc) as [[t' a']|]; [|reflexivity]. cbn [bind fst snd].
+                   change (DAddRange (KI k1) (VStr (w1 ++ w2)) :: ch) with ([DAddRange (KI k1) (VStr (w1 ++ w2))] ++ ch).
+                   change (DAddRange (KI k1) (VStr w1) :: DAddRange (KI k1) (VStr w2) :: ch)
+                     with ([DAddRange (KI k1) (VStr w1); DAddRange (KI k1) (VStr w2)] ++ ch).
+                   rewrite !(pst_app rec obj _ ch), pst_two_addrange. reflexivity.
+             ++ apply Hnocomb. cbn [overlaps op_of opk_eqb knat dkey].
+                replace (Nat.eqb k1 k2) with false by (symmetry; apply Nat.eqb_neq; exact E). reflexivity.
+          -- apply Hnocomb. reflexivity.
+        * (* last = removerange *)
+          destruct Hg2 as (Hk1 & Hl1 & Hg2).
+          destruct e as [k2 v2|k2|k2 v2|[k2|k2] [vs2|w2]|[k2|k2] l2|[k2|k2] dd2]; cbn [gs] in Hg2; try contradiction.
+          -- apply Hnocomb. reflexivity.
+          -- destruct Hg2 as (Hk2 & Hl2 & Hg3).
+             destruct (Nat.le_gt_cases k2 (k1 + l1)) as [Hle|Hgt].
+             ++ assert (k2 = k1 + l1) by lia. subst k2.
+                assert (Ho : overlaps (DRemoveRange (KI k1) l1) (DRemoveRange (KI (k1 + l1)) l2) = Ok true).
+                { cbn [overlaps op_of opk_eqb knat dkey].
+                  replace (Nat.eqb k1 (k1 + l1)) with false by (symmetry; apply Nat.eqb_neq; lia).
+                  rewrite Nat.leb_refl, Nat.eqb_refl. reflexivity. }
+                rewrite Ho. cbn [bind combine_ops is_addop].
+                destruct (IH (DRemoveRange (KI k1) (l1 + l2) :: rest) c0) as (comb & Hc & Hgc & Hp).
+                ** cbn [rev]. rewrite <- app_assoc. cbn [app]. apply gs_app. split; [exact Hg1|]. cbn [gs].
+                   split; [exact Hk1|]. split; [lia|]. replace (k1 + (l1 + l2)) with (k1 + l1 + l2) by lia. exact Hg3.
+                ** exists comb. split; [exact Hc|]. split; [exact Hgc|]. intros tc acc. rewrite Hp.
+                   cbn [rev]. rewrite <- !app_assoc. cbn [app].
+                   rewrite !(pst_app rec obj (rev rest)).
+                   destruct (pst rec obj tc (rev rest) acc) as [[t' a']|]; [|reflexivity]. cbn [bind fst snd].
+                   change (DRemoveRange (KI k1) (l1 + l2) :: ch) with ([DRemoveRange (KI k1) (l1 + l2)] ++ ch).
+                   change (DRemoveRange (KI k1) l1 :: DRemoveRange (KI (k1 + l1)) l2 :: ch)
+                     with ([DRemoveRange (KI k1) l1; DRemoveRange (KI (k1 + l1)) l2] ++ ch).
+                   rewrite !(pst_app rec obj _ ch), pst_two_removerange. reflexivity.
+             ++ apply Hnocomb. cbn [overlaps op_of opk_eqb knat dkey].
+                replace (Nat.eqb k1 k2) with false by (symmetry; apply Nat.eqb_neq; lia).
+                replace (Nat.leb k2 (k1 + l1)) with false by (symmetry; apply Nat.leb_gt; lia). reflexivity.
+  Qed.
+End Combine.
+
+(* ---------- flatten_list_of_string_diff: line-level and character-level patching agree ---------- *)
+Lemma join_chars' s : join_strs (chars s) = Ok s.
+Proof.
+  unfold chars. induction s as [|c s IH]; [reflexivity|]. cbn [map char_json join_strs]. rewrite IH. reflexivity.
+Qed.
+
+Lemma concat_strs_app l1 l2 : concat_strs (l1 ++ l2) = concat_strs l1 ++ concat_strs l2.
+Proof. unfold concat_strs. apply flat_map_app. Qed.
+
+Lemma concat_strs_JStr (ls : list (list N)) : concat_strs (map JStr ls) = concat ls.
+Proof. induction ls as [|l ls IH]; [reflexivity|]. cbn [map concat_strs flat_map concat]. fold (concat_strs (map JStr ls)). rewrite IH. reflexivity. Qed.
+
+Lemma join_strs_all l : all_strs l = true -> join_strs l = Ok (concat_strs l).
+Proof.
+  induction l as [|x l IH]; intros H; [reflexivity|]. cbn [all_strs forallb] in H.
+  apply andb_true_iff in H as [H1 H2]. destruct x; try discriminate.
+  cbn [join_strs]. rewrite (IH H2). reflexivity.
+Qed.
+
+Lemma slice_chars line u q : slice (chars line) u q = chars (slice line u q).
+Proof. unfold chars. apply slice_map. Qed.
+
+Lemma skipn_chars n l : skipn n (chars l) = chars (skipn n l).
+Proof. unfold chars. apply skipn_map. Qed.
+
+Lemma chars_app s t : chars (s ++ t) = chars s ++ chars t.
+Proof. unfold chars. apply map_app. Qed.
+
+Lemma swf_st_of_swf n vl_ok patch_ok d : forall c a,
+  swf n vl_ok patch_ok c a d = true -> exists st, swf_st n vl_ok patch_ok c a d = Some st.
+Proof.
+  induction d as [|e d IH]; intros c a H; [eexists; reflexivity|].
+  destruct e as [k v|k|k v|[k|k] vs|[k|k] len|[k|k] dd]; cbn [swf swf_st] in *; try discriminate.
+  - apply andb_true_iff in H as [H1 H2]. rewrite H1. apply IH. exact H2.
+  - apply andb_true_iff in H as [H1 H2]. rewrite H1. apply IH. exact H2.
+  - apply andb_true_iff in H as [H1 H2]. rewrite H1. apply IH. exact H2.
+Qed.
+
+Lemma swf_st_bound n vl_ok patch_ok d : forall c a c' a',
+  swf_st n vl_ok patch_ok c a d = Some (c', a') -> c <= n -> c' <= n.
+Proof.
+  induction d as [|e d IH]; intros c a c' a' H Hc; [cbn in H; inversion H; subst; exact Hc|].
+  destruct e as [k v|k|k v|[k|k] vs|[k|k] len|[k|k] dd]; cbn [swf_st] in H; try discriminate.
+  - destruct (vl_ok vs && negb (Nat.eqb (vlen vs) 0) && Nat.leb k n && (Nat.ltb c k || Nat.eqb c k && a)) eqn:E; [|discriminate].
+    apply andb_true_iff in E as [E _]. apply andb_true_iff in E as [_ E]. apply Nat.leb_le in E. eapply IH; eauto.
+  - destruct (negb (Nat.eqb len 0) && Nat.leb c k && Nat.leb (k + len) n) eqn:E; [|discriminate].
+    apply andb_true_iff in E as [_ E]. apply Nat.leb_le in E. eapply IH; eauto.
+  - destruct (Nat.leb c k && Nat.ltb k n && patch_ok k dd) eqn:E; [|discriminate].
+    apply andb_true_iff in E as [E _]. apply andb_true_iff in E as [_ E]. apply Nat.ltb_lt in E. eapply IH; eauto. lia.
+Qed.
+
+Lemma gend_app l1 : forall l2 c, gend c (l1 ++ l2) = gend (gend c l1) l2.
+Proof.
+  induction l1 as [|e l1 IH]; intros l2 c; [reflexivity|].
+  destruct e as [k v|k|k v|[k|k] vs|[k|k] len|[k|k] dd]; cbn [app gend]; apply IH.
+Qed.
+
+Section FlattenSim.
+  Variable rec_c : json -> diff -> res json.
+  Variable lines : list (list N).
+  Hypothesis Hne : Forall (fun l : list N => l <> []) lines.
+
+  Notation C := (chars (concat lines)).
+  Notation LJ := (map JStr lines).
+  Definition nopatch : nat -> list dentry -> bool := fun _ _ => false.
+
+  Definition line_rec (x : json) (dd : diff) : res json :=
+    match x with
+    | JStr u => do r <- patch_list rec_c (chars u) dd; do j <- join_strs r; Ok (JStr j)
+    | _ => Err TypeError
+    end.
+
+  Lemma C_slice_line k line u q :
+    nth_error lines k = Some line -> u <= q -> q <= length line ->
+    slice C (offk lines k + u) (offk lines k + q) = slice (chars line) u q.
+  Proof.
+    intros Hk Hu Hq. unfold chars. rewrite !slice_map. f_equal. apply slice_within_line; assumption.
+  Qed.
+
+  Lemma within_line k line : nth_error lines k = Some line ->
+    forall dd u au cu' au' wd tcg accg base0,
+      swf_st (length line) vl_is_str nopatch u au dd = Some (cu', au') ->
+      tcg <= offk lines k + u ->
+      accg ++ slice C tcg (offk lines k + u) = base0 ++ chars wd ->
+      exists wd' sdd tcg' accg',
+        pst rec_c (chars line) u dd (chars wd) = Ok (cu', chars wd')
+        /\ mapM (offset_entry (offk lines k)) dd = Ok sdd
+        /\ pst rec_c C tcg sdd accg = Ok (tcg', accg')
+        /\ tcg' <= offk lines k + cu'
+        /\ accg' ++ slice C tcg' (offk lines k + cu') = base0 ++ chars wd'
+        /\ gs (offk lines k + u) sdd /\ gend (offk lines k + u) sdd = offk lines k + cu'.
+  Proof.
+    intros Hk. set (ok := offk lines k).
+    induction dd as [|e dd IH]; intros u au cu' au' wd tcg accg base0 Hwf Htc Hacc.
+    - cbn in Hwf. inversion Hwf; subst. exists wd, [], tcg, accg. cbn [pst mapM gs gend]. repeat split; auto.
+    - destruct e as [q v|q|q v|[q|q] [vs|w]|[q|q] len|[q|q] dd']; cbn [swf_st vl_is_str] in Hwf; try discriminate.
+      + (* addrange q w *)
+        cbn [andb] in Hwf.
+        destruct (negb (Nat.eqb (vlen (VStr w)) 0) && Nat.leb q (length line) && (Nat.ltb u q || Nat.eqb u q && au)) eqn:E; [|discriminate].
+        apply andb_true_iff in E as [E1 E3]. apply andb_true_iff in E1 as [E1 E2].
+        apply Nat.leb_le in E2.
+        assert (Huq : u <= q).
+        { apply orb_true_iff in E3 as [E3|E3]; [apply Nat.ltb_lt in E3; lia|].
+          apply andb_true_iff in E3 as [E3 _]. apply Nat.eqb_eq in E3. lia. }
+        destruct (IH q false cu' au' (wd ++ slice line u q ++ w) (ok + q) (accg ++ slice C tcg (ok + q) ++ chars w) base0 Hwf)
+          as (wd' & sdd & tcg' & accg' & H1 & H2 & H3 & H4 & H5 & H6 & H7).
+        * lia.
+        * pose proof (C_slice_line k line u q Hk Huq E2) as Hsl. fold ok in Hsl.
+          transitivity ((accg ++ slice C tcg (ok + u)) ++ chars (slice line u q) ++ chars w).
+          -- rewrite slice_same, app_nil_r.
+             rewrite <- (slice_app C tcg (ok + u) (ok + q)) by lia.
+             rewrite Hsl, (slice_chars line u q). rewrite <- !app_assoc. reflexivity.
+          -- rewrite Hacc, !chars_app, <- !app_assoc. reflexivity.
+        * exists wd', (DAddRange (KI (q + ok)) (VStr w) :: sdd), tcg', accg'.
+          split; [|split; [|split; [|split; [exact H4|split; [exact H5|]]]]].
+          -- cbn [pst dkey vitems]. replace (Nat.max u q) with q by lia.
+             replace ((chars wd ++ slice (chars line) u q) ++ map char_json w) with (chars (wd ++ slice line u q ++ w)); [exact H1|].
+             rewrite (slice_chars line u q), !chars_app, <- !app_assoc. reflexivity.
+          -- cbn [mapM offset_entry dkey set_key bind]. fold ok. rewrite H2. reflexivity.
+          -- cbn [pst dkey vitems]. replace (q + ok) with (ok + q) by lia.
+             replace (Nat.max tcg (ok + q)) with (ok + q) by lia.
+             rewrite <- app_assoc. exact H3.
+          -- cbn [gs gend]. replace (q + ok) with (ok + q) by lia. split; [split; [lia | exact H6] | exact H7].
+      + (* removerange q len *)
+        destruct (negb (Nat.eqb len 0) && Nat.leb u q && Nat.leb (q + len) (length line)) eqn:E; [|discriminate].
+        apply andb_true_iff in E as [E1 E3]. apply andb_true_iff in E1 as [E1 E2].
+        apply negb_true_iff, Nat.eqb_neq in E1. apply Nat.leb_le in E2, E3.
+        destruct (IH (q + len) true cu' au' (wd ++ slice line u q) (ok + (q + len)) (accg ++ slice C tcg (ok + q)) base0 Hwf)
+          as (wd' & sdd & tcg' & accg' & H1 & H2 & H3 & H4 & H5 & H6 & H7).
+        * lia.
+        * pose proof (C_slice_line k line u q Hk E2 ltac:(lia)) as Hsl. fold ok in Hsl.
+          transitivity ((accg ++ slice C tcg (ok + u)) ++ chars (slice line u q)).
+          -- rewrite slice_same, app_nil_r.
+             rewrite <- (slice_app C tcg (ok + u) (ok + q)) by lia.
+             rewrite Hsl, (slice_chars line u q). rewrite <- !app_assoc. reflexivity.
+          -- rewrite Hacc, !chars_app, <- !app_assoc. reflexivity.
+        * exists wd', (DRemoveRange (KI (q + ok)) len :: sdd), tcg', accg'.
+          split; [|split; [|split; [|split; [exact H4|split; [exact H5|]]]]].
+          -- cbn [pst dkey]. replace (Nat.max u (q + len)) with (q + len) by lia.
+             replace (chars wd ++ slice (chars line) u q) with (chars (wd ++ slice line u q)); [exact H1|].
+             rewrite (slice_chars line u q), chars_app. reflexivity.
+          -- cbn [mapM offset_entry dkey set_key bind]. fold ok. rewrite H2. reflexivity.
+          -- cbn [pst dkey]. replace (q + ok) with (ok + q) by lia.
+             replace (Nat.max tcg (ok + q + len)) with (ok + (q + len)) by lia. exact H3.
+          -- cbn [gs gend]. replace (q + ok) with (ok + q) by lia.
+             replace (ok + q + len) with (ok + (q + len)) by lia.
+             split; [split; [lia | split; [lia | exact H6]] | exact H7].
+      + (* patch inside a character diff is not well-formed *)
+        cbn [nopatch] in Hwf. rewrite andb_false_r in Hwf. discriminate.
+  Qed.
+
+  Definition line_patch_ok (k : nat) (dd : list dentry) : bool :=
+    match nth_error lines k with
+    | Some line => negb (Nat.eqb (length dd) 0) && wf_chars (length line) dd
+    | None => false
+    end.
+
+  Lemma offk_strict k k' : k < k' -> k' <= length lines -> offk lines k < offk lines k'.
+  Proof.
+    intros Hlt Hle. destruct (nth_error lines k) as [line|] eqn:E; [|apply nth_error_None in E; lia].
+    assert (line <> []) by (rewrite Forall_forall in Hne; apply Hne; eapply nth_error_In; eauto).
+    pose proof (offk_succ lines k line E). pose proof (offk_mono lines (S k) k' ltac:(lia)).
+    destruct line; [congruence|]. simpl in *. lia.
+  Qed.
+
+  Lemma flatten_line_sim : forall d t a t' a' accL gc tc accC,
+    swf_st (length lines) vl_is_lines line_patch_ok t a d = Some (t', a') ->
+    t <= length lines -> tc <= offk lines t -> gc <= offk lines t ->
+    accC ++ slice C tc (offk lines t) = chars (concat_strs accL) ->
+    exists accL' ch tc' accC',
+      pst line_rec LJ t d accL = Ok (t', accL')
+      /\ flatten_entries (line_to_char lines) d = Ok ch
+      /\ pst rec_c C tc ch accC = Ok (tc', accC')
+      /\ t' <= length lines /\ tc' <= offk lines t'
+      /\ accC' ++ slice C tc' (offk lines t') = chars (concat_strs accL')
+      /\ gs gc ch /\ gend gc ch <= offk lines t'.
+  Proof.
+    induction d as [|e d IH]; intros t a t' a' accL gc tc accC Hwf Htn Htc Hgc Hacc.
+    - cbn in Hwf. inversion Hwf; subst. exists accL, [], tc, accC. cbn [pst flatten_entries gs gend]. repeat split; auto.
+    - assert (Hgap : forall k, t <= k -> k <= length lines ->
+                accC ++ slice C tc (offk lines k) = chars (concat_strs (accL ++ slice LJ t k))).
+      { intros k Htk Hk. rewrite <- (slice_app C tc (offk lines t) (offk lines k)); [|lia|apply offk_mono; lia].
+        rewrite app_assoc, Hacc. unfold chars at 2. rewrite slice_map, slice_offsets by lia. fold (chars (concat (slice lines t k))).
+        rewrite concat_strs_app, slice_map, concat_strs_JStr, chars_app. reflexivity. }
+      destruct e as [k v|k|k v|[k|k] [vs|w]|[k|k] len|[k|k] dd]; cbn [swf_st vl_is_lines] in Hwf; try discriminate.
+      + (* addrange k vs *)
+        destruct (all_strs vs && negb (Nat.eqb (vlen (VList vs)) 0) && Nat.leb k (length lines) && (Nat.ltb t k || Nat.eqb t k && a)) eqn:E; [|discriminate].
+        apply andb_true_iff in E as [E1 E4]. apply andb_true_iff in E1 as [E1 E3]. apply andb_true_iff in E1 as [E1 E2].
+        apply Nat.leb_le in E3.
+        assert (Htk : t <= k).
+        { apply orb_true_iff in E4 as [E4|E4]; [apply Nat.ltb_lt in E4; lia|].
+          apply andb_true_iff in E4 as [E4 _]. apply Nat.eqb_eq in E4. lia. }
+        pose proof (offk_mono lines t k Htk) as Hmono.
+        destruct (IH k false t' a' (accL ++ slice LJ t k ++ vs) (offk lines k) (offk lines k)
+                     (accC ++ slice C tc (offk lines k) ++ chars (concat_strs vs)) Hwf)
+          as (accL' & ch & tc' & accC' & H1 & H2 & H3 & H4 & H5 & H6 & H7 & H8); auto.
+        * rewrite slice_same, app_nil_r. rewrite app_assoc, (Hgap k Htk E3).
+          rewrite !concat_strs_app, !chars_app, <- !app_assoc. reflexivity.
+        * exists accL', (DAddRange (KI (offk lines k)) (VStr (concat_strs vs)) :: ch), tc', accC'.
+          split; [|split; [|split; [|split; [exact H4|split; [exact H5|split; [exact H6|]]]]]].
+          -- cbn [pst dkey vitems]. replace (Nat.max t k) with k by lia. rewrite <- app_assoc. exact H1.
+          -- cbn [flatten_entries flatten_entry dkey]. rewrite (line_to_char_nth lines k E3). cbn [bind join_vlist].
+             rewrite (join_strs_all vs E1). cbn [bind]. rewrite H2. reflexivity.
+          -- cbn [pst dkey vitems]. replace (Nat.max tc (offk lines k)) with (offk lines k) by lia.
+             rewrite <- app_assoc. exact H3.
+          -- cbn [gs gend]. split; [split; [lia | exact H7] | exact H8].
+      + (* removerange k len *)
+        destruct (negb (Nat.eqb len 0) && Nat.leb t k && Nat.leb (k + len) (length lines)) eqn:E; [|discriminate].
+        apply andb_true_iff in E as [E1 E3]. apply andb_true_iff in E1 as [E1 E2].
+        apply negb_true_iff, Nat.eqb_neq in E1. apply Nat.leb_le in E2, E3.
+        pose proof (offk_mono lines t k E2) as Hmono.
+        pose proof (offk_strict k (k + len) ltac:(lia) E3) as Hstrict.
+        destruct (IH (k + len) true t' a' (accL ++ slice LJ t k) (offk lines (k + len)) (offk lines (k + len))
+                     (accC ++ slice C tc (offk lines k)) Hwf)
+          as (accL' & ch & tc' & accC' & H1 & H2 & H3 & H4 & H5 & H6 & H7 & H8); auto.
+        * rewrite slice_same, app_nil_r. apply Hgap; lia.
+        * exists accL', (DRemoveRange (KI (offk lines k)) (offk lines (k + len) - offk lines k) :: ch), tc', accC'.
+          split; [|split; [|split; [|split; [exact H4|split; [exact H5|split; [exact H6|]]]]]].
+          -- cbn [pst dkey]. replace (Nat.max t (k + len)) with (k + len) by lia. exact H1.
+          -- cbn [flatten_entries flatten_entry dkey]. rewrite (line_to_char_nth lines k (Nat.le_trans _ _ _ (Nat.le_add_r k len) E3)). cbn [bind].
+             rewrite (line_to_char_nth lines (k + len) E3). cbn [bind]. rewrite H2. reflexivity.
+          -- cbn [pst dkey].
+             replace (Nat.max tc (offk lines k + (offk lines (k + len) - offk lines k))) with (offk lines (k + len)) by lia.
+             exact H3.
+          -- cbn [gs gend].
+             replace (offk lines k + (offk lines (k + len) - offk lines k)) with (offk lines (k + len)) by lia.
+             split; [split; [lia | split; [lia | exact H7]] | exact H8].
+      + (* patch k dd *)
+        destruct (Nat.leb t k && Nat.ltb k (length lines) && line_patch_ok k dd) eqn:E; [|discriminate].
+        apply andb_true_iff in E as [E1 E3]. apply andb_true_iff in E1 as [E1 E2].
+        apply Nat.leb_le in E1. apply Nat.ltb_lt in E2.
+        unfold line_patch_ok in E3. destruct (nth_error lines k) as [line|] eqn:Eline; [|discriminate].
+        apply andb_true_iff in E3 as [E3 E4]. apply negb_true_iff, Nat.eqb_neq in E3.
+        unfold wf_chars in E4.
+        destruct (swf_st_of_swf (length line) vl_is_str (fun _ _ => false) dd 0 true E4) as ([cu' au'] & Hst).
+        pose proof (offk_mono lines t k E1) as Hmono.
+        destruct (within_line k line Eline dd 0 true cu' au' [] tc accC (chars (concat_strs (accL ++ slice LJ t k))) Hst)
+          as (wd' & sdd & tcg' & accg' & W1 & W2 & W3 & W4 & W5 & W6 & W7).
+        { lia. }
+        { rewrite Nat.add_0_r. cbn [chars map]. rewrite app_nil_r. apply Hgap; lia. }
+        assert (Hcu : cu' <= length line).
+        { pose proof (swf_st_bound (length line) vl_is_str (fun _ _ => false) dd 0 true cu' au' Hst). lia. }
+        pose proof (offk_succ lines k line Eline) as Hsucc.
+        set (newline := wd' ++ skipn cu' line).
+        destruct (IH (k + 1) true t' a' (accL ++ slice LJ t k ++ [JStr newline]) (offk lines k + cu') tcg' accg' Hwf)
+          as (accL' & ch & tc' & accC' & H1 & H2 & H3 & H4 & H5 & H6 & H7 & H8); auto; try lia.
+        * replace (k + 1) with (S k) by lia. lia.
+        * replace (k + 1) with (S k) by lia. lia.
+        * replace (k + 1) with (S k) by lia. rewrite Hsucc.
+          rewrite <- (slice_app C tcg' (offk lines k + cu') (offk lines k + length line)) by lia.
+          rewrite app_assoc, W5. rewrite (C_slice_line k line cu' (length line) Eline Hcu (le_n _)).
+          rewrite (slice_chars line cu' (length line)), slice_to_end.
+          rewrite (app_assoc accL), !concat_strs_app. cbn [concat_strs flat_map]. rewrite app_nil_r.
+          unfold newline. rewrite !chars_app, <- !app_assoc. reflexivity.
+        * exists accL', (sdd ++ ch), tc', accC'.
+          split; [|split; [|split; [|split; [exact H4|split; [exact H5|split; [exact H6|]]]]]].
+          -- cbn [pst dkey]. unfold nth_res. rewrite nth_error_map. unfold pystr in *. rewrite Eline. cbn [option_map bind line_rec].
+             unfold patch_list. rewrite go_pst. change (@nil json) with (chars []). rewrite W1. cbn [bind fst snd].
+             rewrite skipn_chars, <- chars_app, join_chars'. cbn [bind].
+             replace (Nat.max t (k + 1)) with (k + 1) by lia. rewrite <- app_assoc. exact H1.
+          -- cbn [flatten_entries flatten_entry dkey]. rewrite (line_to_char_nth lines k (Nat.lt_le_incl _ _ E2)). cbn [bind].
+             rewrite W2. cbn [bind]. rewrite H2. reflexivity.
+          -- rewrite pst_app, W3. cbn [bind fst snd]. exact H3.
+          -- rewrite Nat.add_0_r in W6, W7.
+             assert (Hg0 : gs gc sdd) by (eapply gs_weaken; [exact W6 | lia]).
+             assert (He : gend gc sdd = offk lines k + cu').
+             { rewrite <- W7. destruct dd as [|e0 dd0]; [cbn in E3; congruence|].
+               destruct sdd as [|s0 sdd0]; [cbn [mapM] in W2; destruct (offset_entry (offk lines k) e0); cbn [bind] in W2;
+                 [destruct (mapM (offset_entry (offk lines k)) dd0); discriminate | discriminate]|].
+               destruct s0 as [? ?|?|? ?|[?|?] ?|[?|?] ?|[?|?] ?]; cbn [gs] in W6; try contradiction; reflexivity. }
+             split; [apply gs_app; split; [exact Hg0 | rewrite He; exact H7]|].
+             rewrite gend_app, He. exact H8.
+  Qed.
+End FlattenSim.
